@@ -3,7 +3,9 @@ package main
 import (
 	"fmt"
 	"os"
+	"runtime/pprof"
 	"testing"
+	"time"
 
 	"verif/gossipsim"
 	"verif/simcore"
@@ -20,6 +22,14 @@ func TestRun(t *testing.T) {
 		os.Exit(2)
 	}
 	thorough := os.Getenv("VERIF_TIER") == "thorough"
+	if pf := os.Getenv("GOSSIPSIM_CPUPROFILE"); pf != "" {
+		// debugging aid: WorkerMain exits the process, so the profile is
+		// closed by a timer after 8s
+		f, err := os.Create(pf)
+		if err == nil && pprof.StartCPUProfile(f) == nil {
+			time.AfterFunc(8*time.Second, func() { pprof.StopCPUProfile(); f.Close() })
+		}
+	}
 	simcore.WorkerMain(simcore.Spec{
 		Property: prop,
 		Engine:   "gossipsim",
